@@ -73,8 +73,10 @@ def harness(prop, cases=None, native_inputs=None, max_paths=4000, name=None, gro
     return deco
 
 
-def loop_spec(func_key, ordinal, inv=None, modifies=(), types=None, at_head=None, at_end=None, ghost_havoc=None):
-    _LOOP_SPECS[(func_key, ordinal)] = LoopSpec(inv, modifies, types, at_head=at_head, at_end=at_end, ghost_havoc=ghost_havoc)
+def loop_spec(func_key, ordinal, inv=None, modifies=(), types=None, at_head=None, at_end=None, ghost_havoc=None, abstract=False):
+    sp = LoopSpec(inv, modifies, types, at_head=at_head, at_end=at_end, ghost_havoc=ghost_havoc)
+    sp.abstract = abstract
+    _LOOP_SPECS[(func_key, ordinal)] = sp
 
 
 def callback(fn):
